@@ -3,6 +3,7 @@ import PycsepVerif.GeneratedSrcSM
 import PycsepVerif.Drive.C12
 import PycsepVerif.Drive.C04
 import PycsepVerif.GeneratedSrc
+import PycsepVerif.Drive.C10
 /-! driver ops `srcsm_<f>`: the definitions generated from the imperative / stateful Python source (GeneratedSrcSM.lean),
     made executable so that harness/src_tie_sm.py can compare them with the real Python functions (validation of
     py2lean_sm.py and PyPreludeSM.lean). Results: `ok <value…>` or `err <exception>`. -/
@@ -12,7 +13,8 @@ open Proto
 def showExc : PySM.Exc → String
   | .py .valueError => "ValueError" | .py .indexError => "IndexError" | .py .assertionError => "AssertionError"
   | .py .other => "Exception" | .stopIteration => "StopIteration" | .typeError => "TypeError"
-  | .attributeError => "AttributeError" | .keyError => "KeyError" | .rngExhausted => "rng-exhausted" | .outOfFuel => "out-of-fuel"
+  | .attributeError => "AttributeError" | .keyError => "KeyError" | .osError => "OSError" | .runtimeError => "RuntimeError"
+  | .rngExhausted => "rng-exhausted" | .outOfFuel => "out-of-fuel"
 
 def showM {β : Type} (f : β → String) : PySM.M β → String
   | .ok b => "ok " ++ f b
@@ -308,6 +310,97 @@ def handle : List String → Option String
             (ObsName := Unit) (Forecast := Unit) (Obs := Nat) (Cat := Nat) q
             (fun d nm o qs st _ _ _ _ => s!"{showNats d}|{o}|{showOpt showRat qs.1}|{showOpt showRat qs.2}|{nm}|{st}")
             (fun f => .ok (cnts, f)) id id (fun _ => ()) (fun _ => ()) (fun _ => ()) (fun _ => ()) () obs)
+      | _, _ => "bad-op")
+  -- srcsm_catalog_spatial_test <rates: bits> <expected_cond_count: bits> <observed spatial counts>
+  --   <spatial counts of each catalog of the pass, `;`-separated> : `status|observed|quantile|distribution` in the format of the
+  --   C10 driver. `_compute_likelihood` and `get_quantiles` are the hand model's functions at Float (tied by py2lean); the
+  --   forecast has its expected rates already (the values are given), so `get_expected_rates` is not called
+  | ["srcsm_catalog_spatial_test", rates, ecc, gobs, gcats] => some (
+      match parseList? parseFloat? rates, parseFloat? ecc, parseList? String.toNat? gobs, parseList2? String.toNat? gcats with
+      | some rates, some ecc, some gobs, some gcats =>
+        let getq : List (Option (ELL Float)) → Option (ELL Float) → CatEvals.Quant × CatEvals.Quant := fun d v =>
+          match v with
+          | some x => (CatEvals.quantiles (d.filterMap id) x, CatEvals.quantiles (d.filterMap id) x)
+          | none => (.sentinel, .sentinel)
+        showM (fun (r : String × Unit) => r.1)
+          (SrcSM.catalog_spatial_test (Qv := CatEvals.Quant) (Result := String) (MinMw := Unit) (ObsRepr := Unit)
+            (FName := Unit) (ObsName := Unit) (Forecast := Unit) (Obs := Unit) (Cat := List Nat) (Region := Unit) (GF := Unit)
+            CatEvals.computeLikelihood getq
+            (fun d nm o q st _ _ _ _ =>
+              s!"{st}|{showOpt Drive.C10.showELL o}|{Drive.C10.showQuant q.1}|{showList (showOpt Drive.C10.showELL) d}|{nm}")
+            (fun f => .ok ((), f)) (fun _ => ecc) (fun _ => rates) (fun _ => .ok gobs) (fun c => .ok c)
+            (fun _ => CatEvals.Quant.sentinel) (fun f => .ok (gcats, f)) (fun _ => some ()) (fun _ => some ())
+            (fun _ => ()) (fun _ => ()) (fun _ => gobs.sum) (fun _ => ()) (fun _ => ()) () ())
+      | _, _, _, _ => "bad-op")
+  -- srcsm_catalog_pseudolikelihood_test <rates> <expected_cond_count> <observed spatial counts> <catalogs> <event_count of the
+  --   observed catalog> : the same for `pseudolikelihood_test`; `none` when the function returns None
+  | ["srcsm_catalog_pseudolikelihood_test", rates, ecc, gobs, gcats, evc] => some (
+      match parseList? parseFloat? rates, parseFloat? ecc, parseList? String.toNat? gobs, parseList2? String.toNat? gcats,
+            evc.toNat? with
+      | some rates, some ecc, some gobs, some gcats, some evc =>
+        let getq : List (Option (ELL Float)) → Option (ELL Float) → CatEvals.Quant × CatEvals.Quant := fun d v =>
+          match v with
+          | some x => (CatEvals.quantiles (d.filterMap id) x, CatEvals.quantiles (d.filterMap id) x)
+          | none => (.sentinel, .sentinel)
+        showM (fun (r : Option String × Unit) => r.1.getD "none")
+          (SrcSM.catalog_pseudolikelihood_test (Qv := CatEvals.Quant) (Result := String) (MinMw := Unit) (ObsRepr := Unit)
+            (FName := Unit) (ObsName := Unit) (Forecast := Unit) (Obs := Unit) (Cat := List Nat) (Region := Unit) (GF := Unit)
+            (fun g r e n => (some (CatEvals.computeLikelihood g r e n).1, (CatEvals.computeLikelihood g r e n).2)) getq
+            (fun d nm o q st _ _ _ _ =>
+              s!"{st}|{showOpt Drive.C10.showELL o}|{Drive.C10.showQuant q.1}|{showList (showOpt Drive.C10.showELL) d}|{nm}")
+            (fun f => .ok ((), f)) (fun _ => ecc) (fun _ => rates) (fun _ => .ok gobs) (fun c => .ok c)
+            (fun _ => CatEvals.Quant.sentinel) (fun f => .ok (gcats, f)) (fun _ => some ()) (fun _ => some ())
+            (fun _ => ()) (fun _ => ()) (fun _ => evc) (fun _ => ()) (fun _ => ()) () ())
+      | _, _, _, _, _ => "bad-op")
+  -- srcsm_catalog_magnitude_test <union histogram: bits> <observed magnitude counts> <magnitude counts of each catalog of the
+  --   pass, `;`-separated> <event_count of the observed catalog> : `status|observed|quantile|distribution|name`;
+  --   `cumulative_square_diff` and the quantiles are the hand model's functions at Float
+  | ["srcsm_catalog_magnitude_test", union, hobs, mcs, evc] => some (
+      match parseList? parseFloat? union, parseList? String.toNat? hobs, parseList2? String.toNat? mcs, evc.toNat? with
+      | some union, some hobs, some mcs, some evc =>
+        let getq : List Float → Float → CatEvals.Quant × CatEvals.Quant := fun d v =>
+          (CatEvals.quantiles (d.map ELL.fin) (.fin v), CatEvals.quantiles (d.map ELL.fin) (.fin v))
+        showM (fun (r : String × Unit) => r.1)
+          (SrcSM.catalog_magnitude_test (Qv := CatEvals.Quant) (Result := String) (MinMw := Unit) (ObsRepr := Unit)
+            (FName := Unit) (ObsName := Unit) (Forecast := Unit) (Obs := Unit) (Cat := List Nat) (Region := Unit)
+            (Mags := Unit) (GF := Unit) getq CatEvals.cumulativeSquareDiff
+            (fun d nm o q st _ _ _ _ =>
+              s!"{st}|{showOpt showFloat o}|{match q.1 with | some q => Drive.C10.showQuant q | none => "none,none"}|{showList showFloat d}|{nm}")
+            (fun f => .ok ((), f)) (fun _ => union) (fun _ => .ok hobs) (fun c => .ok c)
+            (fun f => .ok (mcs, f)) (fun _ => some ()) (fun _ => some ())
+            (fun _ => ()) (fun _ => ()) (fun _ => evc) (fun _ => ()) (fun _ => ()) (fun _ => some ()) () ())
+      | _, _, _, _ => "bad-op")
+  -- srcsm_ndk_loop <number of lines> <what each complete group does, `;`-separated: `v` = `_read_lines` raises ValueError,
+  --   `o` = OSError, `t` = `_parse_datetime_to_zmap` raises ValueError, `r` = RuntimeError,
+  --   `k,<epoch>,<lat>,<lng>,<depth>,<Mw>` = accepted> : the events `id:epoch:lat:lng:depth:Mw`.
+  --   A line is (index of its group, position in the group); `_read_lines` looks the group up; the epoch travels in the
+  --   `year` member of the dictionary and through `datetime(...)`
+  | ["srcsm_ndk_loop", nlines, toks] => some (
+      match nlines.toNat?, (if toks = "-" then some [] else some (toks.splitOn ";")) with
+      | some n, some toks =>
+        let lines : List (Nat × Nat) := (List.range n).map fun i => (i / 5, i % 5)
+        let tokOf (g : List (Option (Nat × Nat))) : List String :=
+          match g.head? with
+          | some (some (gi, _)) => (toks.getD gi "v").splitOn ","
+          | _ => ["v"]
+        let rl (g : List (Option (Nat × Nat))) : PySM.M (List String) :=
+          match tokOf g with
+          | ["v"] => .error (.py .valueError)
+          | ["o"] => .error .osError
+          | t => .ok t
+        let pz (d : List String) (_ : Unit) : PySM.M (List String) :=
+          match d with
+          | ["t"] => .error (.py .valueError)
+          | ["r"] => .error .runtimeError
+          | t => .ok t
+        let num (t : List String) (i : Nat) : Rat := ((t.getD i "0") |> parseRat?).getD 0
+        showM (showList fun (e : Nat × Int × Rat × Rat × Rat × Rat) =>
+            s!"{e.1}:{e.2.1}:{showRat e.2.2.1}:{showRat e.2.2.2.1}:{showRat e.2.2.2.2.1}:{showRat e.2.2.2.2.2}")
+          (SrcSM.ndk_loop (Line := Nat × Nat) (Rec := List String) (DateTok := List String) (TimeTok := Unit)
+            (DtDict := List String) (Dt := Int) rl lines pz
+            (fun y _ _ _ _ _ => .ok y) id id (fun _ => ())
+            (fun t => num t 2) (fun t => num t 3) (fun t => num t 4) (fun t => num t 5)
+            (fun t => ((t.getD 1 "0").toInt?).getD 0) (fun _ => 0) (fun _ => 0) (fun _ => 0) (fun _ => 0) (fun _ => 0) [])
       | _, _ => "bad-op")
   | _ => none
 end Drive.SrcSM
